@@ -4,7 +4,7 @@
    (what compile_component_replica does to strings) is tied to it by C03_textual_refines. *)
 From Coq Require Import String Ascii List Bool NArith.
 Import ListNotations.
-Require Import V.Lib.PyStr V.Repl.Model V.Repl.Proofs V.Repl.Aggregate V.Repl.Dataflow V.Repl.Arguments V.Repl.Platform.
+Require Import V.Lib.PyStr V.Repl.Model V.Repl.Proofs V.Repl.Aggregate V.Repl.Dataflow V.Repl.Arguments V.Repl.Platform V.Repl.Everywhere.
 Open Scope list_scope.
 
 (* The replicated region: a component carries the count n exactly when it requests n replicas itself or
@@ -325,4 +325,73 @@ Proof.
   split; [vm_compute; reflexivity|].
   split; [vm_compute; reflexivity|].
   split; vm_compute; reflexivity.
+Qed.
+
+(* ---- every other string of a component (Everywhere.v): variables, executable / environment, executors,
+   resourceManager ... ---- *)
+
+(* expand_x — the expansion carrying the variables of every component (those the platform selects) and its other
+   strings along — produces exactly the components of expand_t: the theorems above speak about its x_comp part. *)
+Theorem C03_everywhere_same_expansion : forall w xs, option_map (map x_comp) (expand_x w xs) = expand_t w.
+Proof. exact expand_x_comp. Qed.
+Print Assumptions C03_everywhere_same_expansion.
+
+(* Copy i of a replicated component: in EVERY string of its definition — the value of any of its variables (so
+   what %(variable)s puts on its command line) and any other string (extra: command.executable / environment,
+   executors payloads, resourceManager options, labelled by path) — written as blank-separated tokens, exactly the
+   tokens that are declared spellings are rewritten, to the spelling of the structured rewiring (copy i of the
+   replicated producer, last conjunct), and nothing else changes; under the hypotheses of
+   C03_textual_arguments_replica.  Keys (variable names, paths) are never rewritten. *)
+Theorem C03_textual_everywhere_replica : forall info c sc extra n i,
+  alookup (sid sc) info = Some (Some n, false) -> (0 < n)%N -> In i (nseq n) ->
+  no_overlap info i (s_refs sc) = true ->
+  let L := sorted_translation (repl_refs info (s_refs sc)) i in
+  exists x, In x (expand_one_x info c sc extra) /\
+    x_comp x = replica_comp c (repl_refs info (s_refs sc)) n i /\
+    (forall k toks, In (k, join " " toks) (t_vars c) -> args_sep L toks = true ->
+                    In (k, join " " (map (tok_spec L) toks)) (x_vars x)) /\
+    (forall k toks, In (k, join " " toks) extra -> args_sep L toks = true ->
+                    In (k, join " " (map (tok_spec L) toks)) (x_extra x)) /\
+    (forall r, In r (s_refs sc) -> tok_spec L (spell r) = spell (rw_ref info i r)).
+Proof. exact everywhere_replica. Qed.
+Print Assumptions C03_textual_everywhere_replica.
+
+(* A component outside the replicated region keeps every string of its definition. *)
+Theorem C03_everywhere_outside : forall info c sc extra,
+  (alookup (sid sc) info = Some (None, false) \/ alookup (sid sc) info = None) ->
+  expand_one_x info c sc extra = [plain_x c extra] /\ x_vars (plain_x c extra) = t_vars c /\
+  x_extra (plain_x c extra) = extra.
+Proof. exact everywhere_outside. Qed.
+Print Assumptions C03_everywhere_outside.
+
+(* non-vacuity: C consumes the replicated A and spells it in two variables used on its command line (relative
+   spelling; the other spelling of a reference with a file), in command.environment and — with a path after the
+   method — in an executors payload; the aggregator D spells its input in a variable *)
+Definition ex_xwf : twf := {| w_gvars := []; w_svars := []; w_comps := [
+  {| t_stage := 0; t_name := "A"; t_refs := []; t_args := "hi"; t_rep := RLit 2; t_agg := false; t_vars := [] |};
+  {| t_stage := 0; t_name := "C"; t_refs := ["A:ref"; "stage0.A/r.bin:copy"]; t_args := "-c %(conf)s %(restart)s";
+     t_rep := RNone; t_agg := false;
+     t_vars := [("conf", "A:ref"); ("restart", "-r A/r.bin:copy"); ("steps", "10")] |};
+  {| t_stage := 0; t_name := "D"; t_refs := ["C:output"]; t_args := "%(inputs)s"; t_rep := RNone; t_agg := true;
+     t_vars := [("inputs", "stage0.C:output")] |}
+  ]%string |}.
+Definition ex_xs : list strs :=
+  [[]; [("command.environment", "stage0.A:ref"); ("executors.pre.0.payload", "A:ref/x.dat")]; []]%string.
+
+Example C03_everywhere_nonvacuous :
+  option_map (map (fun x => (o_name (x_comp x), x_vars x, x_extra x))) (expand_x ex_xwf ex_xs) =
+    Some [("A0", [], []); ("A1", [], []);
+          ("C0", [("conf", "stage0.A0:ref"); ("restart", "-r stage0.A0/r.bin:copy"); ("steps", "10")],
+                 [("command.environment", "stage0.A0:ref"); ("executors.pre.0.payload", "stage0.A0:ref/x.dat")]);
+          ("C1", [("conf", "stage0.A1:ref"); ("restart", "-r stage0.A1/r.bin:copy"); ("steps", "10")],
+                 [("command.environment", "stage0.A1:ref"); ("executors.pre.0.payload", "stage0.A1:ref/x.dat")]);
+          ("D", [("inputs", "stage0.C0:output stage0.C1:output")], [])]%string /\
+  (exists scs info, parse_comps ex_xwf (w_comps ex_xwf) = Some scs /\ propagate scs = Some info /\
+     forallb (fun sc => negb (String.eqb (s_name sc) "C") ||
+        (no_overlap info 1 (s_refs sc) &&
+         args_sep (sorted_translation (repl_refs info (s_refs sc)) 1) ["-r"; "A/r.bin:copy"]%string &&
+         args_sep (sorted_translation (repl_refs info (s_refs sc)) 1) ["stage0.A:ref"]%string)) scs = true).
+Proof.
+  split; [vm_compute; reflexivity|]. eexists. eexists.
+  split; [vm_compute; reflexivity|]. split; vm_compute; reflexivity.
 Qed.
